@@ -97,9 +97,10 @@ NOT_APPLICABLE = {
 }
 
 # properties that additionally get whole-system runs (Sim H): every N-th run of the batch
-WHOLE = {"C01": 40, "C03": 10, "C07": 20, "C09": 40, "C10": 8, "C14": 20, "C15": 25, "C19": 10}
+WHOLE = {"C01": 40, "C03": 10, "C07": 20, "C09": 40, "C10": 8, "C12": 100, "C14": 20, "C15": 25, "C19": 10}
 WHOLE_TECH = " + whole-system runs (every {n}th run): real ExecutionBuilder::add_live -> ExecutionManager::init/run -> SystemBuild::init (stream feed, audit on) -> Engine with LiveClock on the simulated clock, driven only from outside (market stream, scripted exchange clients with delays / silence / errors / lagging unsolicited reports / dropped account connections, operator commands, strategy batches, an exchange without execution link, clock leaps, spurious channel wake-ups), judged after a quiet period from the audit stream, the requests each client received and the engine returned by System::shutdown"
 WHOLE_TEXT = {
+    "C12": " Whole-system runs: the engine behind the real execution manager's reconnecting account stream must process exactly one reconnecting notice per dropped account connection (failed re-initialisations add none), and every fill the exchange sends on a connection that is up reaches the engine exactly once - the stream never ends by itself.",
     "C01": " Whole-system runs fold the same lifecycle model over the audited end-to-end history: it bounds each order's exchange-reported data after every audit record (on a real replica) and its exact state, in-flight markers included, in the engine handed back.",
     "C03": " Whole-system runs: per exchange the requests the audit stream reports as sent must equal, in order, what that exchange's client received through the real execution manager; requests for an exchange without a link must end the run on a fatal record and reach nobody; refused requests reach nobody; no strategy output while trading is disabled.",
     "C07": " Whole-system runs: per (order, kind) the engine must process exactly as many answers as the exchange client received requests, the client's answer iff it beat the timeout, and once faults stop (2 x (timeout + slowest client) + 1 s of virtual time) no order of the returned engine may still be in flight.",
